@@ -9,24 +9,32 @@ model, `Inv` holds in *every* `Reachable` state — no side condition.
 Vocabulary
 * `getCB s i`          : control block `i` (`dflt` — freed, all counters 0 — outside `cbs`);
 * `pointOf (thr t) = some i` : `t` is inside a call that borrowed/consumed a handle of `i` (`clone`, `inc`, `dDec`, `count`);
-* `tailOf (thr t) = some i`  : `t` saw the counter of `i` reach 0 and is at `dDealloc i` or `dFree i`;
+* `tailOf (thr t) = some i`  : `t` saw the counter of `i` reach 0: `dDealloc i`, `dDestroy i`, `dRelease i` or `dFree i`;
+* `ownTail (thr t) = some i` : … and the payload's destructor has not run yet (`dDealloc i`, `dDestroy i`);
+* `uOf (thr t) = some x`     : `t` is inside `dealloc_id` for the slot `x` of a unique handle (`uDestroy x`, `uRelease x`);
+* `transLoc (thr t)`         : `dRelease _`, `uDestroy _`, `uRelease _` — the slot is counted under no owner and not free;
 * `Parked thr i k`     : exactly `k` threads are at a point of `i` (∃ duplicate-free list of them, of length `k`);
+* `Transit thr k`      : exactly `k` threads are at a `transLoc` point;   `Owned s k` : exactly `k` control blocks `Owns`;
 * `Owns s i`           : `i < cbs.length`, slot `id` is alive and carries the generation of control block `i`
-                         (data-only; `HandlesProps.owns_iff` : `Owns s i ↔ rc > 0 ∨ ∃ t, thr t = dDealloc i`).
+                         (data-only; `HandlesProps.owns_iff` : `Owns s i ↔ rc > 0 ∨ ∃ t, thr t = dDealloc i ∨ thr t = dDestroy i`).
 
 Fields
 * pool          : `freeNodup`, `freeLt` (free ids distinct, `< N`); `uniqNodup`, `uniqOk` (`u < N`, `u ∉ free`, `alive u`);
 * counters      : `rcSum` (`rc = live + lent + owed`), `freedZero` (`freed → rc = 0`),
                   `lentCount` (`Parked s.thr i lent` — the census of calls in progress is exact);
-* ownership     : `rcOwns` (`rc > 0 → Owns`), `ddOwns` (`thr t = dDealloc i → Owns`), `ownRc` (converse: `Owns ∧ rc = 0 →` some thread
-                  is at `dDealloc i`), `ownOk` (`Owns → ¬freed ∧ id < N ∧ id ∉ free ∧ id ∉ uniques ∧ slot id = val`),
+* ownership     : `rcOwns` (`rc > 0 → Owns`), `ddOwns` (`ownTail (thr t) = some i → Owns`), `ownRc` (converse: `Owns ∧ rc = 0 →` some
+                  thread has `ownTail = some i`), `ownOk` (`Owns → ¬freed ∧ id < N ∧ id ∉ free ∧ id ∉ uniques ∧ slot id = val`),
                   `ownInj` (two owning control blocks have different slots);
-* drop tail     : `tailOk` (`dDealloc i`/`dFree i` → `i < cbs.length ∧ ¬freed ∧ rc = 0`), `tailUniq` (at most one such thread per `i`);
+* drop tail     : `tailOk` (`tailOf (thr t) = some i → i < cbs.length ∧ ¬freed ∧ rc = 0`), `tailUniq` (one such thread per `i`);
+* in transit    : `relOk` (`dRelease i`: `id < N`, `id ∉ free`, `id ∉ uniques`, not alive), `uOk` (`uDestroy/uRelease x`: `x < N`,
+                  `x ∉ free`, `x ∉ uniques`), `uDesOk` (alive), `uRelOk` (not alive, `(x, slotGen x, slot x)` logged),
+                  `uOwn` (no owning control block has slot `x`), `relRel`, `relU`, `uU` (distinct threads in transit hold
+                  distinct slots);  the facts for `dDestroy i` are those of `Owns` (`ddOwns`);
 * generations   : `genLt`, `slotGenLt` (below the allocation clock), `genInj` (alive slots carry distinct generations);
 * destructor log: `logNodup` (each generation at most once), `logLt`, `aliveNotLogged` (the value in an alive slot was not
-                  destroyed), `deadLogged` (a control block that no longer owns has its `(id, gen, val)` in the log);
-* counting      : `count` (∃ duplicate-free list `own` of exactly the owning control blocks with
-                  `own.length + uniques.length + free.length = N`).
+                  destroyed), `deadLogged` (a control block that no longer `Owns` has its `(id, gen, val)` in the log);
+* counting      : `count` (`∃ a b, Owned s a ∧ Transit s.thr b ∧ a + uniques.length + b + free.length = N`;
+                  `HandlesProps.pool_partition` re-sorts `dDestroy` from "owned" to "in transit" and gives the permutation).
 -/
 
 namespace Mutiny.Handles
@@ -77,19 +85,31 @@ theorem getCB_updCB (s : St) (i : Nat) (f : CB → CB) (j : Nat) :
   · have : ¬ i = j := fun h => hj h.symm
     simp [hj, this]
 
-@[simp, grind =] theorem thr_dealloc (s : St) (id : Nat) : (dealloc s id).thr = s.thr := rfl
-@[simp, grind =] theorem N_dealloc (s : St) (id : Nat) : (dealloc s id).N = s.N := rfl
-@[simp, grind =] theorem free_dealloc (s : St) (id : Nat) : (dealloc s id).free = s.free ++ [id] := rfl
-@[simp, grind =] theorem slot_dealloc (s : St) (id : Nat) : (dealloc s id).slot = s.slot := rfl
-@[simp, grind =] theorem alive_dealloc (s : St) (id j : Nat) :
-    (dealloc s id).alive j = if j = id then false else s.alive j := rfl
-@[simp, grind =] theorem slotGen_dealloc (s : St) (id : Nat) : (dealloc s id).slotGen = s.slotGen := rfl
-@[simp, grind =] theorem nextGen_dealloc (s : St) (id : Nat) : (dealloc s id).nextGen = s.nextGen := rfl
-@[simp, grind =] theorem cbs_dealloc (s : St) (id : Nat) : (dealloc s id).cbs = s.cbs := rfl
-@[simp, grind =] theorem uniques_dealloc (s : St) (id : Nat) : (dealloc s id).uniques = s.uniques := rfl
-@[simp, grind =] theorem dropLog_dealloc (s : St) (id : Nat) :
-    (dealloc s id).dropLog = s.dropLog ++ [(id, s.slotGen id, s.slot id)] := rfl
-@[simp, grind =] theorem getCB_dealloc (s : St) (id i : Nat) : getCB (dealloc s id) i = getCB s i := rfl
+@[simp, grind =] theorem thr_destroy (s : St) (id : Nat) : (destroy s id).thr = s.thr := rfl
+@[simp, grind =] theorem N_destroy (s : St) (id : Nat) : (destroy s id).N = s.N := rfl
+@[simp, grind =] theorem free_destroy (s : St) (id : Nat) : (destroy s id).free = s.free := rfl
+@[simp, grind =] theorem slot_destroy (s : St) (id : Nat) : (destroy s id).slot = s.slot := rfl
+@[simp, grind =] theorem alive_destroy (s : St) (id j : Nat) :
+    (destroy s id).alive j = if j = id then false else s.alive j := rfl
+@[simp, grind =] theorem slotGen_destroy (s : St) (id : Nat) : (destroy s id).slotGen = s.slotGen := rfl
+@[simp, grind =] theorem nextGen_destroy (s : St) (id : Nat) : (destroy s id).nextGen = s.nextGen := rfl
+@[simp, grind =] theorem cbs_destroy (s : St) (id : Nat) : (destroy s id).cbs = s.cbs := rfl
+@[simp, grind =] theorem uniques_destroy (s : St) (id : Nat) : (destroy s id).uniques = s.uniques := rfl
+@[simp, grind =] theorem dropLog_destroy (s : St) (id : Nat) :
+    (destroy s id).dropLog = s.dropLog ++ [(id, s.slotGen id, s.slot id)] := rfl
+@[simp, grind =] theorem getCB_destroy (s : St) (id i : Nat) : getCB (destroy s id) i = getCB s i := rfl
+
+@[simp, grind =] theorem thr_release (s : St) (id : Nat) : (release s id).thr = s.thr := rfl
+@[simp, grind =] theorem N_release (s : St) (id : Nat) : (release s id).N = s.N := rfl
+@[simp, grind =] theorem free_release (s : St) (id : Nat) : (release s id).free = s.free ++ [id] := rfl
+@[simp, grind =] theorem slot_release (s : St) (id : Nat) : (release s id).slot = s.slot := rfl
+@[simp, grind =] theorem alive_release (s : St) (id : Nat) : (release s id).alive = s.alive := rfl
+@[simp, grind =] theorem slotGen_release (s : St) (id : Nat) : (release s id).slotGen = s.slotGen := rfl
+@[simp, grind =] theorem nextGen_release (s : St) (id : Nat) : (release s id).nextGen = s.nextGen := rfl
+@[simp, grind =] theorem cbs_release (s : St) (id : Nat) : (release s id).cbs = s.cbs := rfl
+@[simp, grind =] theorem uniques_release (s : St) (id : Nat) : (release s id).uniques = s.uniques := rfl
+@[simp, grind =] theorem dropLog_release (s : St) (id : Nat) : (release s id).dropLog = s.dropLog := rfl
+@[simp, grind =] theorem getCB_release (s : St) (id i : Nat) : getCB (release s id) i = getCB s i := rfl
 
 /-- appending a control block -/
 theorem getD_snoc (l : List CB) (c : CB) (j : Nat) :
@@ -173,20 +193,49 @@ def pointOf : Loc → Option Nat
   | .count i => some i
   | _ => none
 
-/-- program points of the thread that saw the counter reach 0 -/
+/-- program points of the thread that saw the counter of control block `i` reach 0 -/
 def tailOf : Loc → Option Nat
   | .dDealloc i => some i
+  | .dDestroy i => some i
+  | .dRelease i => some i
   | .dFree i => some i
   | _ => none
 
+/-- … of which those where the payload is still intact (the destructor has not run yet) -/
+def ownTail : Loc → Option Nat
+  | .dDealloc i => some i
+  | .dDestroy i => some i
+  | _ => none
+
+/-- program points of a thread releasing the slot of a unique handle / raw allocation -/
+def uOf : Loc → Option Nat
+  | .uDestroy x => some x
+  | .uRelease x => some x
+  | _ => none
+
+/-- program points whose slot is counted neither under a control block (`Owns`) nor under `uniques` nor under `free` -/
+def transLoc : Loc → Bool
+  | .dRelease _ => true
+  | .uDestroy _ => true
+  | .uRelease _ => true
+  | _ => false
+
 /-- control block `i` owns its pool slot: the value it was created for is still alive in slot `id`
-    (data-only formulation; `owns_iff` shows it is `¬freed ∧ (rc > 0 ∨ some thread is at dDealloc i)`) -/
+    (data-only formulation; `HandlesProps.owns_iff` : `rc > 0 ∨ some thread is at dDealloc i / dDestroy i`) -/
 def Owns (s : St) (i : Nat) : Prop :=
   i < s.cbs.length ∧ s.alive (getCB s i).id = true ∧ s.slotGen (getCB s i).id = (getCB s i).gen
 
 /-- exactly `n` threads are parked at a point of control block `i` -/
 def Parked (thr : Nat → Loc) (i n : Nat) : Prop :=
   ∃ ts : List Nat, ts.Nodup ∧ (∀ t, t ∈ ts ↔ pointOf (thr t) = some i) ∧ ts.length = n
+
+/-- exactly `n` threads hold a slot in transit (`dRelease`, `uDestroy`, `uRelease`) -/
+def Transit (thr : Nat → Loc) (n : Nat) : Prop :=
+  ∃ ts : List Nat, ts.Nodup ∧ (∀ t, t ∈ ts ↔ transLoc (thr t) = true) ∧ ts.length = n
+
+/-- exactly `n` control blocks own their slot -/
+def Owned (s : St) (n : Nat) : Prop :=
+  ∃ own : List Nat, own.Nodup ∧ (∀ i, i ∈ own ↔ Owns s i) ∧ own.length = n
 
 structure Inv (s : St) : Prop where
   freeNodup : s.free.Nodup
@@ -196,14 +245,23 @@ structure Inv (s : St) : Prop where
   rcSum : ∀ i, (getCB s i).rc = (getCB s i).live + (getCB s i).lent + (getCB s i).owed
   freedZero : ∀ i, (getCB s i).freed = true → (getCB s i).rc = 0
   rcOwns : ∀ i, (getCB s i).rc > 0 → Owns s i
-  ddOwns : ∀ t i, s.thr t = .dDealloc i → Owns s i
+  ddOwns : ∀ t i, ownTail (s.thr t) = some i → Owns s i
   ownOk : ∀ i, Owns s i → (getCB s i).freed = false ∧ (getCB s i).id < s.N ∧ (getCB s i).id ∉ s.free ∧
             (getCB s i).id ∉ s.uniques ∧ s.slot (getCB s i).id = (getCB s i).val
   ownInj : ∀ i j, Owns s i → Owns s j → (getCB s i).id = (getCB s j).id → i = j
-  ownRc : ∀ i, Owns s i → (getCB s i).rc = 0 → ∃ t, s.thr t = .dDealloc i
+  ownRc : ∀ i, Owns s i → (getCB s i).rc = 0 → ∃ t, ownTail (s.thr t) = some i
   lentCount : ∀ i, Parked s.thr i (getCB s i).lent
   tailOk : ∀ t i, tailOf (s.thr t) = some i → i < s.cbs.length ∧ (getCB s i).freed = false ∧ (getCB s i).rc = 0
   tailUniq : ∀ t u i, tailOf (s.thr t) = some i → tailOf (s.thr u) = some i → t = u
+  relOk : ∀ t i, s.thr t = .dRelease i → (getCB s i).id < s.N ∧ (getCB s i).id ∉ s.free ∧
+            (getCB s i).id ∉ s.uniques ∧ s.alive (getCB s i).id = false
+  uOk : ∀ t x, uOf (s.thr t) = some x → x < s.N ∧ x ∉ s.free ∧ x ∉ s.uniques
+  uDesOk : ∀ t x, s.thr t = .uDestroy x → s.alive x = true
+  uRelOk : ∀ t x, s.thr t = .uRelease x → s.alive x = false ∧ (x, s.slotGen x, s.slot x) ∈ s.dropLog
+  uOwn : ∀ t x i, uOf (s.thr t) = some x → Owns s i → (getCB s i).id ≠ x
+  relRel : ∀ t u i j, s.thr t = .dRelease i → s.thr u = .dRelease j → (getCB s i).id = (getCB s j).id → t = u
+  relU : ∀ t u i x, s.thr t = .dRelease i → uOf (s.thr u) = some x → (getCB s i).id ≠ x
+  uU : ∀ t u x, uOf (s.thr t) = some x → uOf (s.thr u) = some x → t = u
   genLt : ∀ i, i < s.cbs.length → (getCB s i).gen < s.nextGen
   slotGenLt : ∀ j, s.slotGen j < s.nextGen
   genInj : ∀ j k, s.alive j = true → s.alive k = true → s.slotGen j = s.slotGen k → j = k
@@ -212,8 +270,7 @@ structure Inv (s : St) : Prop where
   aliveNotLogged : ∀ j, s.alive j = true → s.slotGen j ∉ s.dropLog.map (·.2.1)
   deadLogged : ∀ i, i < s.cbs.length → ¬ Owns s i →
                  ((getCB s i).id, (getCB s i).gen, (getCB s i).val) ∈ s.dropLog
-  count : ∃ own : List Nat, own.Nodup ∧ (∀ i, i ∈ own ↔ Owns s i) ∧
-            own.length + s.uniques.length + s.free.length = s.N
+  count : ∃ a b, Owned s a ∧ Transit s.thr b ∧ a + s.uniques.length + b + s.free.length = s.N
 
 theorem dflt_rc : dflt.rc = 0 := rfl
 
@@ -255,6 +312,56 @@ theorem parked_remove {s : St} {t j n : Nat} {l : Loc} (h : Parked s.thr j n)
   · subst hu; simp [h2]
   · simp [hu]
 
+theorem transit_same {s : St} {t n : Nat} {l : Loc} (h : Transit s.thr n)
+    (h1 : transLoc (s.thr t) = transLoc l) : Transit (setThr s t l).thr n := by
+  obtain ⟨ts, hn, hm, hl⟩ := h
+  refine ⟨ts, hn, fun u => ?_, hl⟩
+  rw [hm u, thr_setThr]
+  by_cases hu : u = t
+  · subst hu; simp [h1]
+  · simp [hu]
+
+theorem transit_add {s : St} {t n : Nat} {l : Loc} (h : Transit s.thr n)
+    (h1 : transLoc (s.thr t) = false) (h2 : transLoc l = true) : Transit (setThr s t l).thr (n + 1) := by
+  obtain ⟨ts, hn, hm, hl⟩ := h
+  have hnot : t ∉ ts := fun hmem => by have := (hm t).1 hmem; rw [h1] at this; cases this
+  refine ⟨t :: ts, List.nodup_cons.2 ⟨hnot, hn⟩, fun u => ?_, by simp [hl]⟩
+  rw [thr_setThr, List.mem_cons, hm u]
+  by_cases hu : u = t
+  · subst hu; simp [h2]
+  · simp [hu]
+
+theorem transit_remove {s : St} {t n : Nat} {l : Loc} (h : Transit s.thr n)
+    (h1 : transLoc (s.thr t) = true) (h2 : transLoc l = false) :
+    Transit (setThr s t l).thr (n - 1) ∧ 1 ≤ n := by
+  obtain ⟨ts, hn, hm, hl⟩ := h
+  have hmem : t ∈ ts := (hm t).2 h1
+  refine ⟨⟨ts.erase t, hn.erase t, fun u => ?_, by rw [List.length_erase_of_mem hmem, hl]⟩,
+    hl ▸ List.length_pos_of_mem hmem⟩
+  rw [thr_setThr, hn.mem_erase_iff, hm u]
+  by_cases hu : u = t
+  · subst hu; simp [h2]
+  · simp [hu]
+
+theorem owned_same {s s' : St} {n : Nat} (h : Owned s n) (hiff : ∀ i, Owns s' i ↔ Owns s i) : Owned s' n := by
+  obtain ⟨own, hn, hm, hl⟩ := h
+  exact ⟨own, hn, fun i => (hm i).trans (hiff i).symm, hl⟩
+
+theorem owned_add {s s' : St} {n k : Nat} (h : Owned s n) (hk : ¬ Owns s k)
+    (hiff : ∀ i, Owns s' i ↔ (Owns s i ∨ i = k)) : Owned s' (n + 1) := by
+  obtain ⟨own, hn, hm, hl⟩ := h
+  have hnot : k ∉ own := fun hx => hk ((hm k).1 hx)
+  refine ⟨own ++ [k], nodup_snoc.2 ⟨hn, hnot⟩, fun i => ?_, by simp [hl]⟩
+  rw [List.mem_append, List.mem_singleton, hm i, hiff i]
+
+theorem owned_remove {s s' : St} {n k : Nat} (h : Owned s n) (hk : Owns s k)
+    (hiff : ∀ i, Owns s' i ↔ (Owns s i ∧ i ≠ k)) : Owned s' (n - 1) ∧ 1 ≤ n := by
+  obtain ⟨own, hn, hm, hl⟩ := h
+  have hmem : k ∈ own := (hm k).2 hk
+  refine ⟨⟨own.erase k, hn.erase k, fun i => ?_, by rw [List.length_erase_of_mem hmem, hl]⟩,
+    hl ▸ List.length_pos_of_mem hmem⟩
+  rw [hn.mem_erase_iff, hm i, hiff i, and_comm]
+
 /-- a thread parked at a point of `i` holds one of the lent handles -/
 theorem Inv.lent_pos {s : St} (h : Inv s) {t i : Nat} (ht : pointOf (s.thr t) = some i) :
     1 ≤ (getCB s i).lent := by
@@ -269,18 +376,32 @@ theorem Inv.point_lt {s : St} (h : Inv s) {t i : Nat} (ht : pointOf (s.thr t) = 
   have h3 : (getCB s i).rc > 0 := by omega
   exact ⟨(h.rcOwns i h3).1, h3⟩
 
+theorem point_others {l : Loc} {i : Nat} (h : pointOf l = some i) :
+    tailOf l = none ∧ ownTail l = none ∧ uOf l = none ∧ transLoc l = false := by
+  cases l <;> simp_all [pointOf, tailOf, ownTail, uOf, transLoc]
+
+theorem ownTail_tail {l : Loc} {i : Nat} (h : ownTail l = some i) : tailOf l = some i := by
+  cases l <;> simp_all [tailOf, ownTail]
+
+theorem quiet_others {l : Loc} (h1 : tailOf l = none) (h2 : uOf l = none) :
+    ownTail l = none ∧ transLoc l = false := by
+  cases l <;> simp_all [tailOf, ownTail, uOf, transLoc]
+
 /-- projections of updated states -/
 macro "hsimp" : tactic => `(tactic| simp only [lend, Owns, thr_setThr, N_setThr, free_setThr, slot_setThr, alive_setThr,
     slotGen_setThr, nextGen_setThr, cbs_setThr, uniques_setThr, dropLog_setThr, getCB_setThr, thr_updCB, N_updCB,
     free_updCB, slot_updCB, alive_updCB, slotGen_updCB, nextGen_updCB, uniques_updCB, dropLog_updCB, length_updCB,
-    getCB_updCB, thr_dealloc, N_dealloc, free_dealloc, slot_dealloc, alive_dealloc, slotGen_dealloc, nextGen_dealloc,
-    cbs_dealloc, uniques_dealloc, dropLog_dealloc, getCB_dealloc,
+    getCB_updCB, thr_destroy, N_destroy, free_destroy, slot_destroy, alive_destroy, slotGen_destroy, nextGen_destroy,
+    cbs_destroy, uniques_destroy, dropLog_destroy, getCB_destroy, thr_release, N_release, free_release, slot_release,
+    alive_release, slotGen_release, nextGen_release, cbs_release, uniques_release, dropLog_release, getCB_release,
     thr_withUniques, N_withUniques, free_withUniques, slot_withUniques, alive_withUniques, slotGen_withUniques,
     nextGen_withUniques, cbs_withUniques, uniques_withUniques, dropLog_withUniques, getCB_withUniques,
     thr_pushCB, N_pushCB, free_pushCB, slot_pushCB, alive_pushCB, slotGen_pushCB, nextGen_pushCB, uniques_pushCB,
     dropLog_pushCB, length_pushCB, getCB_pushCB,
     thr_allocSt, N_allocSt, free_allocSt, slot_allocSt, alive_allocSt, slotGen_allocSt, nextGen_allocSt, cbs_allocSt,
     uniques_allocSt, dropLog_allocSt, getCB_allocSt])
+
+macro "hgrind" : tactic => `(tactic| grind [pointOf, tailOf, ownTail, uOf, transLoc, List.mem_of_mem_erase])
 
 /-- default per-field tactics (`h : Inv s`); `lentCount` and `count` are left to the caller, as is whatever fails -/
 macro "hfields" h:term:max : tactic => `(tactic| (
@@ -289,16 +410,26 @@ macro "hfields" h:term:max : tactic => `(tactic| (
   try (case freeLt => first | exact Inv.freeLt $h | (intro x hx; have := Inv.freeLt $h x; grind))
   try (case uniqNodup => first | exact Inv.uniqNodup $h | (have := Inv.uniqNodup $h; grind [List.Nodup.erase, List.nodup_cons]))
   try (case uniqOk => first | exact Inv.uniqOk $h | (intro u hu; have := Inv.uniqOk $h u; grind [List.Nodup.mem_erase_iff]))
-  try (case rcSum => intro j; have := Inv.rcSum $h j; grind [pointOf, tailOf])
-  try (case freedZero => intro j; have := Inv.freedZero $h j; have := Inv.rcSum $h j; grind [pointOf, tailOf])
-  try (case rcOwns => intro j; have := Inv.rcOwns $h j; simp only [Owns] at this; grind [pointOf, tailOf])
-  try (case ddOwns => intro u j; have := Inv.ddOwns $h u j; simp only [Owns] at this; grind [pointOf, tailOf])
-  try (case ownOk => intro j; have := Inv.ownOk $h j; simp only [Owns] at this; grind [pointOf, tailOf])
-  try (case ownInj => intro j k; have := Inv.ownInj $h j k; simp only [Owns] at this; grind [pointOf, tailOf])
-  try (case ownRc => intro j; have := Inv.ownRc $h j; simp only [Owns] at this; grind [pointOf, tailOf])
-  try (case tailOk => intro u j; have := Inv.tailOk $h u j; grind [pointOf, tailOf])
-  try (case tailUniq => intro u w j; have := Inv.tailUniq $h u w j; grind [pointOf, tailOf])
-  try (case genLt => intro j; have := Inv.genLt $h j; grind [pointOf, tailOf])
+  try (case rcSum => intro j; have := Inv.rcSum $h j; hgrind)
+  try (case freedZero => intro j; have := Inv.freedZero $h j; have := Inv.rcSum $h j; hgrind)
+  try (case rcOwns => intro j; have := Inv.rcOwns $h j; simp only [Owns] at this; hgrind)
+  try (case ddOwns => intro u j; have := Inv.ddOwns $h u j; simp only [Owns] at this; hgrind)
+  try (case ownOk => intro j; have := Inv.ownOk $h j; simp only [Owns] at this; hgrind)
+  try (case ownInj => intro j k; have := Inv.ownInj $h j k; simp only [Owns] at this; hgrind)
+  try (case ownRc => intro j; have := Inv.ownRc $h j; simp only [Owns] at this; hgrind)
+  try (case tailOk => intro u j; have := Inv.tailOk $h u j; hgrind)
+  try (case tailUniq => intro u w j; have := Inv.tailUniq $h u w j; hgrind)
+  try (case relOk => intro u j; have := Inv.relOk $h u j; hgrind)
+  try (case uOk => intro u x; have := Inv.uOk $h u x; hgrind)
+  try (case uDesOk => intro u x; have := Inv.uDesOk $h u x; hgrind)
+  try (case uRelOk => intro u x; have := Inv.uRelOk $h u x; have := Inv.uOk $h u x
+                      try simp only [List.mem_append, List.mem_singleton]
+                      hgrind)
+  try (case uOwn => intro u x j; have := Inv.uOwn $h u x j; simp only [Owns] at this; hgrind)
+  try (case relRel => intro u w j k; have := Inv.relRel $h u w j k; hgrind)
+  try (case relU => intro u w j x; have := Inv.relU $h u w j x; hgrind)
+  try (case uU => intro u w x; have := Inv.uU $h u w x; hgrind)
+  try (case genLt => intro j; have := Inv.genLt $h j; hgrind)
   try (case slotGenLt => first | exact Inv.slotGenLt $h | (intro j; have := Inv.slotGenLt $h j; grind))
   try (case genInj => first | exact Inv.genInj $h |
     (intro j k; have := Inv.genInj $h j k; have := Inv.slotGenLt $h j; have := Inv.slotGenLt $h k; grind))
@@ -310,17 +441,25 @@ macro "hfields" h:term:max : tactic => `(tactic| (
     (intro j hj; have := Inv.aliveNotLogged $h j; have := Inv.slotGenLt $h j
      try simp only [List.map_append, List.map_cons, List.map_nil, List.mem_append, List.mem_singleton]
      grind))
-  try (case deadLogged => intro j; have := Inv.deadLogged $h j; simp only [Owns] at this; grind [pointOf, tailOf])))
+  try (case deadLogged => intro j; have := Inv.deadLogged $h j; simp only [Owns] at this
+                          try simp only [List.mem_append, List.mem_singleton]
+                          hgrind)))
 
-/-- `count` when ownership did not change -/
-macro "hcount_same" h:term:max : tactic => `(tactic| (
-  refine Exists.elim (Inv.count $h) (fun own hown => ⟨own, hown.1, fun j => ?_, hown.2.2⟩)
-  rw [hown.2.1 j]; first | exact Iff.rfl | (simp only [Owns]; grind [pointOf, tailOf])))
+/-- `Owns` is unchanged -/
+macro "howns_same" : tactic => `(tactic| (intro j; first | exact Iff.rfl | (simp only [Owns]; hsimp; hgrind)))
+
+/-- `count` when neither ownership nor the set of threads in transit changed -/
+macro "hcount_same" h:term:max t:term:max : tactic => `(tactic| (
+  refine Exists.elim (Inv.count $h) (fun a ha => Exists.elim ha (fun b hab => ⟨a, b, owned_same hab.1 ?_,
+    transit_same (t := $t) hab.2.1 ?_, hab.2.2⟩))
+  · howns_same
+  · first | rfl | (simp only [lend, thr_updCB, thr_destroy, thr_release, thr_withUniques, thr_pushCB, thr_allocSt, *] <;> rfl)))
 
 theorem inv_lend (s : St) (t i : Nat) (l : Loc) (hl : pointOf l = some i) (htl : tailOf l = none) (h : Inv s)
     (ht : s.thr t = .idle) (hu : usable s i = true) : Inv (setThr (lend s i) t l) := by
   simp only [usable, Bool.and_eq_true, decide_eq_true_eq] at hu
   obtain ⟨hlen, hlive⟩ := hu
+  obtain ⟨-, hl2, hl3, hl4⟩ := point_others hl
   hfields h
   case lentCount =>
     intro j
@@ -329,15 +468,18 @@ theorem inv_lend (s : St) (t i : Nat) (l : Loc) (hl : pointOf l = some i) (htl :
       exact parked_add (h.lentCount j) (by simp [ht, pointOf]) hl
     · simp only [hj, false_and, if_false]
       exact parked_same (h.lentCount j) (by simp [ht, pointOf]) (by simp [hl]; omega)
-  case count => hcount_same h
+  case count => hcount_same h t
 
 
 /-- a thread moves between points that hold nothing -/
 theorem inv_setThr (s : St) (t : Nat) (l : Loc) (h : Inv s) (h1 : pointOf (s.thr t) = none)
-    (h2 : tailOf (s.thr t) = none) (h3 : pointOf l = none) (h4 : tailOf l = none) : Inv (setThr s t l) := by
+    (h2 : tailOf (s.thr t) = none) (h3 : pointOf l = none) (h4 : tailOf l = none)
+    (h5 : uOf (s.thr t) = none) (h6 : uOf l = none) : Inv (setThr s t l) := by
+  obtain ⟨h7, h8⟩ := quiet_others h2 h5
+  obtain ⟨h9, h10⟩ := quiet_others h4 h6
   hfields h
   case lentCount => intro j; exact parked_same (h.lentCount j) (by simp [h1]) (by simp [h3])
-  case count => hcount_same h
+  case count => hcount_same h t
 
 theorem inv_rawCopy (s : St) (t i : Nat) (h : Inv s) (ht : s.thr t = .idle) (hlen : i < s.cbs.length)
     (ho : (getCB s i).owed > 0) :
@@ -350,7 +492,7 @@ theorem inv_rawCopy (s : St) (t i : Nat) (h : Inv s) (ht : s.thr t = .idle) (hle
         = (getCB s j).lent := by grind
     rw [this]
     exact parked_same (h.lentCount j) (by simp [ht, pointOf]) (by simp [pointOf])
-  case count => hcount_same h
+  case count => hcount_same h t
 
 theorem inv_step_clone (s : St) (t i : Nat) (h : Inv s) (ht : s.thr t = .clone i) : Inv (step s t) := by
   have me := h.point_lt (t := t) (i := i) (by simp [ht, pointOf])
@@ -364,7 +506,7 @@ theorem inv_step_clone (s : St) (t i : Nat) (h : Inv s) (ht : s.thr t = .clone i
       exact parked_remove (h.lentCount j) (by simp [ht, pointOf]) (by simp [pointOf])
     · simp only [hj, false_and, if_false]
       exact parked_same (h.lentCount j) (by simp [ht, pointOf]; omega) (by simp [pointOf])
-  case count => hcount_same h
+  case count => hcount_same h t
 
 
 theorem inv_step_inc (s : St) (t i k : Nat) (h : Inv s) (ht : s.thr t = .inc i k) : Inv (step s t) := by
@@ -379,7 +521,7 @@ theorem inv_step_inc (s : St) (t i k : Nat) (h : Inv s) (ht : s.thr t = .inc i k
       exact parked_remove (h.lentCount j) (by simp [ht, pointOf]) (by simp [pointOf])
     · simp only [hj, false_and, if_false]
       exact parked_same (h.lentCount j) (by simp [ht, pointOf]; omega) (by simp [pointOf])
-  case count => hcount_same h
+  case count => hcount_same h t
 
 theorem inv_step_count (s : St) (t i : Nat) (h : Inv s) (ht : s.thr t = .count i) : Inv (step s t) := by
   have me := h.point_lt (t := t) (i := i) (by simp [ht, pointOf])
@@ -393,7 +535,7 @@ theorem inv_step_count (s : St) (t i : Nat) (h : Inv s) (ht : s.thr t = .count i
       exact parked_remove (h.lentCount j) (by simp [ht, pointOf]) (by simp [pointOf])
     · simp only [hj, false_and, if_false]
       exact parked_same (h.lentCount j) (by simp [ht, pointOf]; omega) (by simp [pointOf])
-  case count => hcount_same h
+  case count => hcount_same h t
 
 theorem inv_step_dDec (s : St) (t i : Nat) (h : Inv s) (ht : s.thr t = .dDec i) : Inv (step s t) := by
   have me := h.point_lt (t := t) (i := i) (by simp [ht, pointOf])
@@ -413,7 +555,7 @@ theorem inv_step_dDec (s : St) (t i : Nat) (h : Inv s) (ht : s.thr t = .dDec i) 
         exact parked_remove (h.lentCount j) (by simp [ht, pointOf]) (by simp [pointOf])
       · simp only [hj, false_and, if_false]
         exact parked_same (h.lentCount j) (by simp [ht, pointOf]; omega) (by simp [pointOf])
-    case count => hcount_same h
+    case count => hcount_same h t
   · hfields h
     case lentCount =>
       intro j
@@ -422,63 +564,122 @@ theorem inv_step_dDec (s : St) (t i : Nat) (h : Inv s) (ht : s.thr t = .dDec i) 
         exact parked_remove (h.lentCount j) (by simp [ht, pointOf]) (by simp [pointOf])
       · simp only [hj, false_and, if_false]
         exact parked_same (h.lentCount j) (by simp [ht, pointOf]; omega) (by simp [pointOf])
-    case count => hcount_same h
+    case count => hcount_same h t
 
 
 theorem inv_step_dFree (s : St) (t i : Nat) (h : Inv s) (ht : s.thr t = .dFree i) : Inv (step s t) := by
   have me := h.tailOk t i (by simp [ht, tailOf])
   have me2 := fun u => h.tailUniq t u i (by simp [ht, tailOf])
   have me3 := h.rcSum i
-  have me4 := h.ownRc i
+  have me4 : ¬ Owns s i := by
+    intro ho
+    obtain ⟨u, hu⟩ := h.ownRc i ho me.2.2
+    have := me2 u (ownTail_tail hu)
+    subst this
+    simp [ht, ownTail] at hu
   simp only [Owns] at me4
   simp only [step, ht]
   hfields h
   case lentCount =>
     intro j
-    have : (if j = i ∧ i < s.cbs.length then { (getCB s i) with freed := true } else getCB s j).lent
-        = (getCB s j).lent := by grind
-    rw [this]
-    exact parked_same (h.lentCount j) (by simp [ht, pointOf]) (by simp [pointOf])
-  case count => hcount_same h
+    exact (parked_same (h.lentCount j) (by simp [ht, pointOf]) (by simp [pointOf])).cast (by grind)
+  case count => hcount_same h t
 
+/-- `oa.drop.dealloc`: pure control step into `dealloc_id` -/
 theorem inv_step_dDealloc (s : St) (t i : Nat) (h : Inv s) (ht : s.thr t = .dDealloc i) : Inv (step s t) := by
+  simp only [step, ht]
+  hfields h
+  case lentCount => intro j; exact parked_same (h.lentCount j) (by simp [ht, pointOf]) (by simp [pointOf])
+  case count => hcount_same h t
+
+/-- `pa.dealloc.drop` on behalf of a control block: the destructor runs, the slot goes in transit -/
+theorem inv_step_dDestroy (s : St) (t i : Nat) (h : Inv s) (ht : s.thr t = .dDestroy i) : Inv (step s t) := by
   have me := h.tailOk t i (by simp [ht, tailOf])
   have me2 := fun u => h.tailUniq t u i (by simp [ht, tailOf])
-  have me3 := h.ddOwns t i ht
+  have me3 := h.ddOwns t i (by simp [ht, ownTail])
   have me4 := h.ownOk i me3
   have me5 := fun j => h.ownInj i j me3
   have me6 := h.aliveNotLogged (getCB s i).id me3.2.1
   have me7 := fun j => h.genInj j (getCB s i).id
-  simp only [Owns] at me3 me5
+  have me8 := fun u x => h.uOwn u x i
+  have me9 := fun u j => h.relOk u j
+  have me10 := fun u x => h.uDesOk u x
+  have me11 : ∀ u, ownTail (s.thr u) = some i → t = u := fun u hu => me2 u (ownTail_tail hu)
+  have hown := me3
+  simp only [Owns] at me3 me5 me8
   simp only [step, ht]
   hfields h
   case lentCount => intro j; exact parked_same (h.lentCount j) (by simp [ht, pointOf]) (by simp [pointOf])
   case count =>
-    obtain ⟨own, hn, hm, hc⟩ := h.count
-    have hi : i ∈ own := (hm i).2 (by simpa only [Owns] using me3)
-    refine ⟨own.erase i, hn.erase i, fun j => ?_, ?_⟩
-    · rw [hn.mem_erase_iff, hm j]; simp only [Owns]; grind
-    · rw [List.length_erase_of_mem hi]; have := List.length_pos_of_mem hi
-      simp only [List.length_append, List.length_singleton]; omega
+    obtain ⟨a, b, ho, htr, hc⟩ := h.count
+    obtain ⟨ho', ha⟩ := owned_remove (s' := setThr (destroy s (getCB s i).id) t (.dRelease i)) (k := i) ho hown
+      (by intro j; simp only [Owns]; hsimp; hgrind)
+    exact ⟨a - 1, b + 1, ho', transit_add (t := t) htr (by simp [ht, transLoc]) rfl, by omega⟩
 
+/-- `pa.dealloc.free` on behalf of a control block: the slot id goes back to the free list -/
+theorem inv_step_dRelease (s : St) (t i : Nat) (h : Inv s) (ht : s.thr t = .dRelease i) : Inv (step s t) := by
+  have me := h.tailOk t i (by simp [ht, tailOf])
+  have me2 := fun u => h.tailUniq t u i (by simp [ht, tailOf])
+  have me3 := h.relOk t i ht
+  have me4 := fun u j => h.relRel t u i j ht
+  have me5 := fun u x => h.relU t u i x ht
+  have me6 := fun j hj => (h.ownOk j hj)
+  have me7 := fun u hu => (h.uniqOk u hu)
+  simp only [Owns] at me6
+  simp only [step, ht]
+  hfields h
+  case lentCount => intro j; exact parked_same (h.lentCount j) (by simp [ht, pointOf]) (by simp [pointOf])
+  case count =>
+    obtain ⟨a, b, ho, htr, hc⟩ := h.count
+    obtain ⟨htr', hb⟩ := transit_remove (t := t) (l := .dFree i) htr (by simp [ht, transLoc]) rfl
+    exact ⟨a, b - 1, owned_same ho (by howns_same), htr', by simp only [List.length_append, List.length_cons, List.length_nil]; omega⟩
 
+/-- `pa.dealloc.drop` of a unique handle's slot -/
+theorem inv_step_uDestroy (s : St) (t x : Nat) (h : Inv s) (ht : s.thr t = .uDestroy x) : Inv (step s t) := by
+  have me := h.uOk t x (by simp [ht, uOf])
+  have me2 := fun u => h.uU t u x (by simp [ht, uOf])
+  have me3 := h.uDesOk t x ht
+  have me4 := fun j => h.uOwn t x j (by simp [ht, uOf])
+  have me6 := h.aliveNotLogged x me3
+  have me7 := fun j => h.genInj j x
+  have me8 := fun u j hu => h.relU u t j x hu (by simp [ht, uOf])
+  simp only [Owns] at me4
+  simp only [step, ht]
+  hfields h
+  case lentCount => intro j; exact parked_same (h.lentCount j) (by simp [ht, pointOf]) (by simp [pointOf])
+  case count => hcount_same h t
+
+/-- `pa.dealloc.free` of a unique handle's slot -/
+theorem inv_step_uRelease (s : St) (t x : Nat) (h : Inv s) (ht : s.thr t = .uRelease x) : Inv (step s t) := by
+  have me := h.uOk t x (by simp [ht, uOf])
+  have me2 := fun u => h.uU t u x (by simp [ht, uOf])
+  have me3 := h.uRelOk t x ht
+  have me4 := fun j => h.uOwn t x j (by simp [ht, uOf])
+  have me8 := fun u j hu => h.relU u t j x hu (by simp [ht, uOf])
+  simp only [Owns] at me4
+  simp only [step, ht]
+  hfields h
+  case lentCount => intro j; exact parked_same (h.lentCount j) (by simp [ht, pointOf]) (by simp [pointOf])
+  case count =>
+    obtain ⟨a, b, ho, htr, hc⟩ := h.count
+    obtain ⟨htr', hb⟩ := transit_remove (t := t) (l := .done .unit) htr (by simp [ht, transLoc]) rfl
+    exact ⟨a, b - 1, owned_same ho (by howns_same), htr', by simp only [List.length_append, List.length_cons, List.length_nil]; omega⟩
+
+/-- `drop(OgreUnique)` / raw `dealloc`: the caller gives the slot up and enters `dealloc_id` -/
 theorem inv_dropUnique (s : St) (t id : Nat) (h : Inv s) (ht : s.thr t = .idle) (hm : id ∈ s.uniques) :
-    Inv (setThr (withUniques (dealloc s id) (s.uniques.erase id)) t (.done .unit)) := by
+    Inv (setThr (withUniques s (s.uniques.erase id)) t (.uDestroy id)) := by
   have me := h.uniqOk id hm
   have me2 := h.uniqNodup
-  have me3 := h.aliveNotLogged id me.2.2
-  have me4 := fun j => h.genInj j id
   have me5 := fun j hj => (h.ownOk j hj).2.2.2.1
+  have me6 := fun u j hu => (h.relOk u j hu).2.2.1
+  have me7 := fun u x hu => (h.uOk u x hu).2.2
   simp only [Owns] at me5
   hfields h
   case lentCount => intro j; exact parked_same (h.lentCount j) (by simp [ht, pointOf]) (by simp [pointOf])
   case count =>
-    obtain ⟨own, hn, hmm, hc⟩ := h.count
-    refine ⟨own, hn, fun j => ?_, ?_⟩
-    · rw [hmm j]; simp only [Owns]; grind
-    · rw [List.length_erase_of_mem hm]; have := List.length_pos_of_mem hm
-      simp only [List.length_append, List.length_singleton]; omega
-
+    obtain ⟨a, b, ho, htr, hc⟩ := h.count
+    refine ⟨a, b + 1, owned_same ho (by howns_same), transit_add (t := t) htr (by simp [ht, transLoc]) rfl, ?_⟩
+    rw [List.length_erase_of_mem hm]; have := List.length_pos_of_mem hm; omega
 
 theorem inv_intoArc (s : St) (t id : Nat) (h : Inv s) (ht : s.thr t = .idle) (hm : id ∈ s.uniques) :
     Inv (setThr (pushCB (withUniques s (s.uniques.erase id))
@@ -489,19 +690,19 @@ theorem inv_intoArc (s : St) (t id : Nat) (h : Inv s) (ht : s.thr t = .idle) (hm
   have me4 := h.slotGenLt id
   have me5 := fun j hj => (h.ownOk j hj).2.2.2.1
   have me6 : getCB s s.cbs.length = dflt := getCB_of_ge (Nat.le_refl _)
+  have me7 := fun u x hu => (h.uOk u x hu).2.2
+  have me8 : ¬ Owns s s.cbs.length := fun hx => Nat.lt_irrefl _ hx.1
+  have me9 : ∀ u j, s.thr u = .dRelease j → j < s.cbs.length := fun u j hu => (h.tailOk u j (by simp [hu, tailOf])).1
   simp only [Owns] at me5
   hfields h
   case lentCount =>
     intro j
     exact (parked_same (h.lentCount j) (by simp [ht, pointOf]) (by simp [pointOf])).cast (by grind [dflt])
   case count =>
-    obtain ⟨own, hn, hmm, hc⟩ := h.count
-    have hnot : s.cbs.length ∉ own := fun hx => Nat.lt_irrefl _ ((hmm _).1 hx).1
-    refine ⟨own ++ [s.cbs.length], nodup_snoc.2 ⟨hn, hnot⟩, fun j => ?_, ?_⟩
-    · rw [List.mem_append, List.mem_singleton, hmm j]; simp only [Owns]; grind
-    · rw [List.length_erase_of_mem hm]; have := List.length_pos_of_mem hm
-      simp only [List.length_append, List.length_singleton]; omega
-
+    obtain ⟨a, b, ho, htr, hc⟩ := h.count
+    refine ⟨a + 1, b, owned_add (k := s.cbs.length) ho me8 ?_, transit_same (t := t) htr (by simp [ht, transLoc]), ?_⟩
+    · intro j; simp only [Owns]; hsimp; hgrind
+    · rw [List.length_erase_of_mem hm]; have := List.length_pos_of_mem hm; omega
 
 theorem inv_newUnique (s : St) (t v id : Nat) (rest : List Nat) (h : Inv s) (ht : s.thr t = .idle)
     (hf : s.free = id :: rest) :
@@ -514,14 +715,16 @@ theorem inv_newUnique (s : St) (t v id : Nat) (rest : List Nat) (h : Inv s) (ht 
   have me5 := h.logLt
   have me7 : s.nextGen ∉ s.dropLog.map (·.2.1) := by
     intro hx; obtain ⟨e, he, hee⟩ := List.mem_map.1 hx; have := h.logLt e he; omega
+  have me8 := fun u j hu => (h.relOk u j hu).2.1
+  have me9 := fun u x hu => (h.uOk u x hu).2.1
   simp only [Owns] at me3
-  rw [hf] at me me1 me2 me3
+  rw [hf] at me me1 me2 me3 me8 me9
   hfields h
   case lentCount => intro j; exact parked_same (h.lentCount j) (by simp [ht, pointOf]) (by simp [pointOf])
   case count =>
-    obtain ⟨own, hn, hmm, hc⟩ := h.count
-    refine ⟨own, hn, fun j => ?_, ?_⟩
-    · rw [hmm j]; simp only [Owns]; grind
+    obtain ⟨a, b, ho, htr, hc⟩ := h.count
+    refine ⟨a, b, owned_same ho ?_, transit_same (t := t) htr (by simp [ht, transLoc]), ?_⟩
+    · intro j; simp only [Owns]; hsimp; hgrind
     · rw [hf] at hc; simp only [List.length_cons] at hc ⊢; omega
 
 theorem inv_newArc (s : St) (t v k id : Nat) (rest : List Nat) (h : Inv s) (ht : s.thr t = .idle) (hk : k > 0)
@@ -538,19 +741,21 @@ theorem inv_newArc (s : St) (t v k id : Nat) (rest : List Nat) (h : Inv s) (ht :
   have me7 : s.nextGen ∉ s.dropLog.map (·.2.1) := by
     intro hx; obtain ⟨e, he, hee⟩ := List.mem_map.1 hx; have := h.logLt e he; omega
   have me6 : getCB s s.cbs.length = dflt := getCB_of_ge (Nat.le_refl _)
+  have me8 := fun u j hu => (h.relOk u j hu).2.1
+  have me9 := fun u x hu => (h.uOk u x hu).2.1
+  have me10 : ¬ Owns s s.cbs.length := fun hx => Nat.lt_irrefl _ hx.1
+  have me11 : ∀ u j, s.thr u = .dRelease j → j < s.cbs.length := fun u j hu => (h.tailOk u j (by simp [hu, tailOf])).1
   simp only [Owns] at me3
-  rw [hf] at me me1 me2 me3
+  rw [hf] at me me1 me2 me3 me8 me9
   hfields h
   case lentCount =>
     intro j
     exact (parked_same (h.lentCount j) (by simp [ht, pointOf]) (by simp [pointOf])).cast (by grind [dflt])
   case count =>
-    obtain ⟨own, hn, hmm, hc⟩ := h.count
-    have hnot : s.cbs.length ∉ own := fun hx => Nat.lt_irrefl _ ((hmm _).1 hx).1
-    refine ⟨own ++ [s.cbs.length], nodup_snoc.2 ⟨hn, hnot⟩, fun j => ?_, ?_⟩
-    · rw [List.mem_append, List.mem_singleton, hmm j]; simp only [Owns]; grind
-    · rw [hf] at hc; simp only [List.length_cons, List.length_append, List.length_nil] at hc ⊢; omega
-
+    obtain ⟨a, b, ho, htr, hc⟩ := h.count
+    refine ⟨a + 1, b, owned_add (k := s.cbs.length) ho me10 ?_, transit_same (t := t) htr (by simp [ht, transLoc]), ?_⟩
+    · intro j; simp only [Owns]; hsimp; hgrind
+    · rw [hf] at hc; simp only [List.length_cons] at hc; omega
 
 /-! ## assembling -/
 
@@ -565,13 +770,21 @@ theorem inv_init (n : Nat) : Inv (init n) := by
   case rcSum => intro i; rfl
   case freedZero => intro i _; rfl
   case rcOwns => intro i hi; exact absurd hi (by decide)
-  case ddOwns => intro t i hi; cases hi
+  case ddOwns => intro t i hi; simp [init, ownTail] at hi
   case ownOk => intro i hi; exact absurd hi.1 (Nat.not_lt_zero _)
   case ownInj => intro i j hi; exact absurd hi.1 (Nat.not_lt_zero _)
   case ownRc => intro i hi; exact absurd hi.1 (Nat.not_lt_zero _)
   case lentCount => intro i; exact ⟨[], List.nodup_nil, fun t => by simp [init, pointOf], rfl⟩
   case tailOk => intro t i hi; simp [init, tailOf] at hi
   case tailUniq => intro t u i hi; simp [init, tailOf] at hi
+  case relOk => intro t i hi; cases hi
+  case uOk => intro t x hi; simp [init, uOf] at hi
+  case uDesOk => intro t x hi; cases hi
+  case uRelOk => intro t x hi; cases hi
+  case uOwn => intro t x i hi; simp [init, uOf] at hi
+  case relRel => intro t u i j hi; cases hi
+  case relU => intro t u i x hi; cases hi
+  case uU => intro t u x hi; simp [init, uOf] at hi
   case genLt => intro i hi; exact absurd hi (Nat.not_lt_zero _)
   case slotGenLt => intro j; exact Nat.zero_lt_one
   case genInj => intro j k hj; cases hj
@@ -579,7 +792,9 @@ theorem inv_init (n : Nat) : Inv (init n) := by
   case logLt => intro e he; cases he
   case aliveNotLogged => intro j hj; cases hj
   case deadLogged => intro i hi; exact absurd hi (Nat.not_lt_zero _)
-  case count => exact ⟨[], List.nodup_nil, fun i => by simp [init], by simp [init]⟩
+  case count =>
+    exact ⟨0, 0, ⟨[], List.nodup_nil, fun i => by simp [init, Owns], rfl⟩,
+      ⟨[], List.nodup_nil, fun t => by simp [init, transLoc], rfl⟩, by simp [init]⟩
 
 theorem inv_step (s : St) (t : Nat) (h : Inv s) : Inv (step s t) := by
   cases ht : s.thr t with
@@ -589,6 +804,10 @@ theorem inv_step (s : St) (t : Nat) (h : Inv s) : Inv (step s t) := by
   | inc i k => exact inv_step_inc s t i k h ht
   | dDec i => exact inv_step_dDec s t i h ht
   | dDealloc i => exact inv_step_dDealloc s t i h ht
+  | dDestroy i => exact inv_step_dDestroy s t i h ht
+  | dRelease i => exact inv_step_dRelease s t i h ht
+  | uDestroy x => exact inv_step_uDestroy s t x h ht
+  | uRelease x => exact inv_step_uRelease s t x h ht
   | dFree i => exact inv_step_dFree s t i h ht
   | count i => exact inv_step_count s t i h ht
 
@@ -601,7 +820,7 @@ theorem inv_apply (s : St) (a : Act) (h : Inv s) : Inv (apply s a) := by
       cases hf : s.free with
       | nil =>
         rw [allocWrite_nil v hf]
-        exact inv_setThr s t _ h (by simp [hc.1, pointOf]) (by simp [hc.1, tailOf]) rfl rfl
+        exact inv_setThr s t _ h (by simp [hc.1, pointOf]) (by simp [hc.1, tailOf]) rfl rfl (by simp [hc.1, uOf]) rfl
       | cons id rest =>
         rw [allocWrite_cons v hf]
         exact inv_newArc s t v k id rest h hc.1 hc.2 hf
@@ -634,7 +853,7 @@ theorem inv_apply (s : St) (a : Act) (h : Inv s) : Inv (apply s a) := by
   | deref t i =>
     simp only [apply]
     split
-    · next hc => exact inv_setThr s t _ h (by simp [hc.1, pointOf]) (by simp [hc.1, tailOf]) rfl rfl
+    · next hc => exact inv_setThr s t _ h (by simp [hc.1, pointOf]) (by simp [hc.1, tailOf]) rfl rfl (by simp [hc.1, uOf]) rfl
     · exact h
   | newUnique t v =>
     simp only [apply]
@@ -643,7 +862,7 @@ theorem inv_apply (s : St) (a : Act) (h : Inv s) : Inv (apply s a) := by
       cases hf : s.free with
       | nil =>
         rw [allocWrite_nil v hf]
-        exact inv_setThr s t _ h (by simp [hc, pointOf]) (by simp [hc, tailOf]) rfl rfl
+        exact inv_setThr s t _ h (by simp [hc, pointOf]) (by simp [hc, tailOf]) rfl rfl (by simp [hc, uOf]) rfl
       | cons id rest =>
         rw [allocWrite_cons v hf]
         exact inv_newUnique s t v id rest h hc hf
@@ -656,7 +875,7 @@ theorem inv_apply (s : St) (a : Act) (h : Inv s) : Inv (apply s a) := by
   | derefUnique t id =>
     simp only [apply]
     split
-    · next hc => exact inv_setThr s t _ h (by simp [hc.1, pointOf]) (by simp [hc.1, tailOf]) rfl rfl
+    · next hc => exact inv_setThr s t _ h (by simp [hc.1, pointOf]) (by simp [hc.1, tailOf]) rfl rfl (by simp [hc.1, uOf]) rfl
     · exact h
   | intoArc t id =>
     simp only [apply]
@@ -667,7 +886,7 @@ theorem inv_apply (s : St) (a : Act) (h : Inv s) : Inv (apply s a) := by
   | ack t =>
     simp only [apply]
     split
-    · next r hr => exact inv_setThr s t _ h (by simp [hr, pointOf]) (by simp [hr, tailOf]) rfl rfl
+    · next r hr => exact inv_setThr s t _ h (by simp [hr, pointOf]) (by simp [hr, tailOf]) rfl rfl (by simp [hr, uOf]) rfl
     · exact h
 
 theorem inv_run (s : St) (as : List Act) (h : Inv s) : Inv (run s as) := by
